@@ -10,6 +10,8 @@ import (
 	"runtime"
 	"runtime/debug"
 	"strings"
+	"sync"
+	"sync/atomic"
 	"time"
 
 	pulsarrt "github.com/cosmos/cosmos-proto/runtime"
@@ -503,6 +505,95 @@ func cmdFaults(args []string) {
 			emit(parseVerdict{Kind: "alloc", Type: *typ, In: []int{}, Note: fmt.Sprintf("superlinear: %d / %d / %d bytes allocated for 500 / 1000 / 2000 nesting levels with unknown fields", a1, a2, a4), Fault: "nested-unknown"})
 		}
 	}
+	// time grows linearly with the input also when map entries lie about their content: an entry
+	// that holds only a value record whose declared length runs PAST the entry, to the end of the
+	// enclosing buffer. A decoder that takes the value from beyond the entry decodes the tail once
+	// as the map value and again as fields of the parent; two such entries per level, with the
+	// next level inside the field of the value type that leads back to the parent, double the
+	// work per level (15 bytes each). The reference rejects the first entry at once.
+	if mf, back := overrunPath(md); mf != nil {
+		build := func(levels int) []byte {
+			var prev []byte
+			for i := 0; i < levels; i++ {
+				tail := prev
+				if back != nil {
+					tail = protowire.AppendBytes(protowire.AppendTag(nil, back.Number(), protowire.BytesType), prev)
+				}
+				recB := protowire.AppendBytes(protowire.AppendTag(nil, mf.Number(), protowire.BytesType), protowire.AppendVarint([]byte{0x12}, uint64(len(tail))))
+				recA := protowire.AppendBytes(protowire.AppendTag(nil, mf.Number(), protowire.BytesType), protowire.AppendVarint([]byte{0x12}, uint64(len(recB)+len(tail))))
+				prev = append(append(append([]byte{}, recA...), recB...), tail...)
+			}
+			return prev
+		}
+		timeOf := func(levels int) (time.Duration, []byte) {
+			x := build(levels)
+			best := time.Duration(1 << 62)
+			for rep := 0; rep < 3; rep++ {
+				m := mt.New().Interface()
+				s := time.Now()
+				if _, hung := bounded(func() { _ = proto.Unmarshal(x, m) }); hung {
+					hangExit(parseVerdict{Kind: "hang", Type: *typ, In: proj.Bytes(x), Note: fmt.Sprintf("hang: proto.Unmarshal did not return within %v", hangLimit), Fault: "entry-overrun"})
+				}
+				if d := time.Since(s); d < best {
+					best = d
+				}
+			}
+			return best, x
+		}
+		t8, _ := timeOf(8)
+		t16, x16 := timeOf(16)
+		cases += 2
+		// linear: t16 is about twice t8; doubling per level: 256 times
+		if t16 > 20*t8+50*time.Millisecond {
+			t18, x18 := timeOf(18)
+			cases++
+			if t18 > 20*t8+50*time.Millisecond && t18 > 2*t16 {
+				emit(parseVerdict{Kind: "time", Type: *typ, In: proj.Bytes(x16), Note: fmt.Sprintf("superlinear: %v / %v / %v for 8 / 16 / 18 levels (%d / %d bytes at 16 / 18) of map entries of field %s whose value runs past the entry", t8, t16, t18, len(x16), len(x18), mf.Name()), Fault: "entry-overrun"})
+			}
+		}
+	}
+	// ... and when a singular message field (or oneof message member) occurs TWICE at every level
+	// of a chain through a cycle of the schema, first empty and then with the next level inside:
+	// the second occurrence merges into the first, once -- work that is repeated per occurrence
+	// doubles per level while the input grows by a few bytes
+	for _, path := range cyclePaths(md, 6) {
+		build := func(levels int) []byte {
+			var prev []byte
+			for i := levels - 1; i >= 0; i-- {
+				fd := path[i%len(path)]
+				x := protowire.AppendBytes(protowire.AppendTag(nil, fd.Number(), protowire.BytesType), nil)
+				prev = protowire.AppendBytes(protowire.AppendTag(x, fd.Number(), protowire.BytesType), prev)
+			}
+			return prev
+		}
+		timeOf := func(levels int) (time.Duration, []byte) {
+			x := build(levels)
+			best := time.Duration(1 << 62)
+			for rep := 0; rep < 3; rep++ {
+				m := mt.New().Interface()
+				s := time.Now()
+				if _, hung := bounded(func() { _ = proto.Unmarshal(x, m) }); hung {
+					hangExit(parseVerdict{Kind: "hang", Type: *typ, In: proj.Bytes(x), Note: fmt.Sprintf("hang: proto.Unmarshal did not return within %v", hangLimit), Fault: "repeated-member"})
+				}
+				if d := time.Since(s); d < best {
+					best = d
+				}
+			}
+			return best, x
+		}
+		// both lengths are a multiple of the cycle length, so both chains close on md's type
+		k := len(path)
+		t8, _ := timeOf(8 * k)
+		t20, x20 := timeOf(20 * k)
+		cases += 2
+		if t20 > 20*t8+50*time.Millisecond {
+			t22, x22 := timeOf(22 * k)
+			cases++
+			if t22 > 20*t8+50*time.Millisecond && t22 > 2*t20 {
+				emit(parseVerdict{Kind: "time", Type: *typ, In: proj.Bytes(x20), Note: fmt.Sprintf("superlinear: %v / %v / %v for 8 / 20 / 22 rounds of the cycle (%d / %d bytes at 20 / 22) with field %s occurring twice per level", t8, t20, t22, len(x20), len(x22), path[0].Name()), Fault: "repeated-member"})
+			}
+		}
+	}
 	// allocation grows linearly with the NUMBER OF RECORDS of a repeated field: N separate
 	// one-element records (one-element packed runs for packable kinds), N = 1000 / 2000 / 4000
 	for i := 0; i < md.Fields().Len(); i++ {
@@ -682,6 +773,61 @@ func cmdDeep(args []string) {
 	fmt.Println(string(ob))
 }
 
+// overrunPath finds a map field of md with a message value type V and a singular message field
+// of V leading back to md whose number md itself does not use (nil: V is md itself), so that the
+// same bytes can be decoded both as a V and as an md.
+func overrunPath(md protoreflect.MessageDescriptor) (mapField, back protoreflect.FieldDescriptor) {
+	for i := 0; i < md.Fields().Len(); i++ {
+		fd := md.Fields().Get(i)
+		if !fd.IsMap() || fd.MapValue().Message() == nil {
+			continue
+		}
+		v := fd.MapValue().Message()
+		if v.FullName() == md.FullName() {
+			return fd, nil
+		}
+		for j := 0; j < v.Fields().Len(); j++ {
+			g := v.Fields().Get(j)
+			if g.Message() != nil && !g.IsMap() && !g.IsList() && g.Message().FullName() == md.FullName() && md.Fields().ByNumber(g.Number()) == nil {
+				return fd, g
+			}
+		}
+	}
+	return nil, nil
+}
+
+// cyclePaths: like cyclePath, one path for each first step (singular message field or oneof
+// message member of md) that leads back to md in one or two steps, at most n of them.
+func cyclePaths(md protoreflect.MessageDescriptor, n int) [][]protoreflect.FieldDescriptor {
+	single := func(m protoreflect.MessageDescriptor) []protoreflect.FieldDescriptor {
+		var out []protoreflect.FieldDescriptor
+		for i := 0; i < m.Fields().Len(); i++ {
+			fd := m.Fields().Get(i)
+			if fd.Message() != nil && !fd.IsMap() && !fd.IsList() && !strings.HasPrefix(string(fd.Message().FullName()), "google.protobuf.") {
+				out = append(out, fd)
+			}
+		}
+		return out
+	}
+	var out [][]protoreflect.FieldDescriptor
+	for _, f1 := range single(md) {
+		if len(out) >= n {
+			break
+		}
+		if f1.Message().FullName() == md.FullName() {
+			out = append(out, []protoreflect.FieldDescriptor{f1})
+			continue
+		}
+		for _, f2 := range single(f1.Message()) {
+			if f2.Message().FullName() == md.FullName() {
+				out = append(out, []protoreflect.FieldDescriptor{f1, f2})
+				break
+			}
+		}
+	}
+	return out
+}
+
 // cyclePath finds singular message fields leading from md back to md in one or two steps.
 func cyclePath(md protoreflect.MessageDescriptor) []protoreflect.FieldDescriptor {
 	single := func(m protoreflect.MessageDescriptor) []protoreflect.FieldDescriptor {
@@ -811,4 +957,76 @@ func elemWireTypeOf(k protoreflect.Kind) protowire.Type {
 		return protowire.BytesType
 	}
 	return protowire.VarintType
+}
+
+func init() { extraCmds["storm"] = cmdStorm }
+
+// cmdStorm (run as a child process: a runtime "fatal error" cannot be recovered): several
+// goroutines decode DIFFERENT inputs into DIFFERENT fresh messages of one type at the same time.
+// The calls share nothing the caller handed them, so every one must return what a sequential
+// decode returns (compared through the reference's deterministic bytes); anything the generated
+// code keeps between calls has to cope with this.
+func cmdStorm(args []string) {
+	fs := flag.NewFlagSet("storm", flag.ExitOnError)
+	typ := fs.String("type", "", "")
+	n := fs.Int("n", 300, "inputs per goroutine")
+	k := fs.Int("k", 8, "goroutines")
+	seed := fs.Int64("seed", 1, "")
+	fs.Parse(args)
+	mt := findType(*typ)
+	md := mt.Descriptor()
+	type job struct{ in, want []byte }
+	jobs := make([][]job, *k)
+	for t := range jobs {
+		g := val.New(*seed*100 + int64(t))
+		for i := 0; i < *n; i++ {
+			g.Cover(md, i, 16)
+			d := g.Dynamic(md)
+			b, err := proto.MarshalOptions{Deterministic: true}.Marshal(d)
+			if err != nil {
+				continue
+			}
+			x := b
+			if i%2 == 1 {
+				x = g.Xform(md, b, 0)
+				chk := dynamicpb.NewMessage(md)
+				if proto.Unmarshal(x, chk) != nil {
+					x = b
+				} else {
+					b, _ = proto.MarshalOptions{Deterministic: true}.Marshal(chk)
+				}
+			}
+			jobs[t] = append(jobs[t], job{x, b})
+		}
+	}
+	var bad atomic.Int64
+	var first atomic.Value
+	start := make(chan struct{})
+	var wg sync.WaitGroup
+	for t := range jobs {
+		wg.Add(1)
+		go func(t int) {
+			defer wg.Done()
+			<-start
+			for _, j := range jobs[t] {
+				m := mt.New().Interface()
+				if pn := catch(func() {
+					if err := proto.Unmarshal(j.in, m); err != nil {
+						panic("error: " + err.Error())
+					}
+					if got, _ := (proto.MarshalOptions{Deterministic: true}).Marshal(m); !bytes.Equal(got, j.want) {
+						panic("decoded value differs from the sequential reference decode")
+					}
+				}); pn != "" {
+					bad.Add(1)
+					first.CompareAndSwap(nil, pn)
+				}
+			}
+		}(t)
+	}
+	close(start)
+	wg.Wait()
+	note, _ := first.Load().(string)
+	b, _ := json.Marshal(map[string]any{"storm": true, "type": *typ, "decodes": *k * *n, "bad": bad.Load(), "note": trunc(note, 200)})
+	fmt.Println(string(b))
 }
